@@ -104,6 +104,29 @@ def run(run):
                         run.violation("C18:token-sequence:" + name, "the query extracted by the %s path from one line of %d bytes is not the token sequence written in the file" % (name, len(line) + sh),
                                       dict(line_bytes=len(line) + sh, path=name, query_head=line[:300],
                                            first_difference=next(((a, b) for a, b in zip(lx.get("tokens", []), want_tokens) if a != b), None)))
+            # the same query wrapped over thousands of lines, the file larger than any read buffer (> 64 KiB, > 128 KiB)
+            if nconj >= 4000:
+                for ncut in (2600, nconj):
+                    h0 = len(q.lexemes[:wi + 1]) + 1 + len(q.lexemes[wi + 1:si]) + 1
+                    lex2 = lex[:h0] + lex[h0:h0 + 8 * ncut] + q.lexemes[si:]
+                    knd2 = knd[:h0] + knd[h0:h0 + 8 * ncut] + q.kinds[si:]
+                    parts = [GQ.render_kinds(knd2[:h0], lex2[:h0])] + [GQ.render_kinds(knd2[h0 + 8 * j:h0 + 8 * j + 8], lex2[h0 + 8 * j:h0 + 8 * j + 8]) for j in range(ncut)] + \
+                            [GQ.render_kinds(knd2[h0 + 8 * ncut:], lex2[h0 + 8 * ncut:])]
+                    for eol in ("\n", "\r\n"):
+                        text = "/**\n * @id long/wrapped\n */\n" + (eol + "    ").join(parts) + eol
+                        path = os.path.join(tmp, "wrapped.cql")
+                        open(path, "wb").write(text.encode("utf-8"))
+                        run.count(("wrapped-file", ncut, eol))
+                        stats["wrapped_large_files"] += 1
+                        want2 = [[k, t] for k, t in zip(knd2, lex2)]
+                        rr = h.call(op="rule", text=text)
+                        ex = h.call(op="extract", path=path)
+                        for name, r_, qtext in (("ci", rr, (rr.get("rule") or {}).get("query")), ("query-file/scan", ex, ex.get("query"))):
+                            lx = h.call(op="lex", q=qtext) if (r_.get("outcome") == "ok" and qtext is not None) else {}
+                            if lx.get("errors") or lx.get("tokens") != want2:
+                                run.violation("C18:token-sequence:" + name, "the query extracted by the %s path from a rule file of %d bytes (%d lines) is not the token sequence written in the file" % (name, len(text), ncut + 5),
+                                              dict(file_bytes=len(text), lines=ncut + 5, path=name, eol=repr(eol), file_head=text[:300], extracted_head=(qtext or "")[:200],
+                                                   first_difference=next(((a, b) for a, b in zip(lx.get("tokens", []), want2) if a != b), None)))
         # the excluded point: a string literal that spans lines (as in the shipped BlowfishUsage.cql)
         mls = ['/**\n * @id java/ml\n */\nFROM method_declaration AS md\nSELECT md.getName(), "first line\n    second  line"\n',
                '/**\n * @id java/ml2\n */\nFROM method_declaration AS md\nSELECT md.getName(), "first line\n\n    third  line"\n',
